@@ -26,6 +26,19 @@ chk("C14", "exploration",
     "trusts refcar's section table; Reader.DataReader() included as an additional seekable source",
     "runtime monitoring: exhaustive operation-string enumeration per archive with reference-table oracle and byte counters on the source", "DESIGN.md §6 C14")
 
+chk("C10", "exploration",
+    "Runtime monitor with pure byte oracles: for seeded CARv1 payloads x, WrapV1/WrapV1File output must be pragma ‖ header(51,len,51+len) ‖ x ‖ index (index checked against a reference scan), ExtractV1File of 4 CARv2 renderings into 4 destination states (absent, larger, smaller, in place) must yield exactly x and leave the source alone, a CARv1 source must be refused without touching files, and ReplaceRootsInFile must change only the header bytes when the encoded header length is unchanged and otherwise fail leaving the file byte-identical.",
+    "trusts refcar's CARv2 renderings and header encoder",
+    "runtime monitoring: byte-equality oracles on files before/after each transform", "DESIGN.md §6 C10")
+chk("C11", "exploration",
+    "Runtime monitor: seeded record multisets (8 hash codes, widths 0..80, repeated digests, offsets up to 2^63-1) loaded in 8/24 permutations into both on-disk codecs; reported byte count, strict reference parse, bucket and entry order, multiset equality, permutation invariance (after canonicalising same-digest runs, byte-exact when none), WriteTo→ReadFrom round trip with identical GetAll/ForEach answers and byte-identical re-marshal; plus writing sessions whose flattened embedded index is compared (lookups; bytes when no digest repeats) with GenerateIndex over the finished payload.",
+    "trusts refcar's index parser/builder",
+    "runtime monitoring: reference-parser oracle on serialized bytes and before/after query comparison", "DESIGN.md §6 C11")
+chk("C13", "exploration",
+    "Runtime monitor: Inspect(true|false) on seeded valid archives in 5 container forms under default limits and limits exactly at / one below the largest section and header — every Stats field compared with a reference scan; typed corruptions with by-construction verdicts; random mutations of the section region judged three-way (Inspect vs BlockReader scan vs reference).",
+    "trusts refcar's scan and stdlib hashes; random mutations leave the CBOR header intact to avoid parser-leniency false alarms",
+    "runtime monitoring: reference-model oracle on returned Stats and accept/reject verdicts", "DESIGN.md §6 C13")
+
 NOT_YET = {}
 
 def main():
